@@ -152,6 +152,22 @@ def check(rep, tier, seed):
             if bad is None:
                 bad = (C.codec_line(c), a)
     rep.coverage["derived_values_on_all_outputs"] = {"cases": len(dcases), "disagreeing": ndiff}
+    # concrete container types (element-type-directed special cases, arrays of 63-127 elements inside collections): the size
+    # calculator must count exactly the bytes written (the harness compares them on every `mrt`)
+    names = [n for n in C.run([harness, "monotypes"], timeout=120).stdout.split("\n") if n.strip()]
+    ml = []
+    for n in names:
+        t = G.ty_of_text(n)
+        for _ in range(4 if tier == "quick" else 100):
+            ml.append(f"mrt {n} {G.gen_value(erng, t)} -")
+    mout = C.run_sharded(harness, "static", ml, wd, "mono.size", shards=8)
+    nsz = 0
+    for l, a in zip(ml, mout):
+        if "size calculator" in a:
+            nsz += 1
+            if bad is None:
+                bad = (l[:400], a[:300])
+    rep.coverage["concrete_types_size_calculator"] = {"cases": len(ml), "disagreeing": nsz}
     C.proof_coverage(rep, ob, "C15")
     rep.coverage.update({
         "evaluations": 3 * len(lines), "distinct_nontrivial": len(set(lines)),
